@@ -86,24 +86,24 @@ CLAIMED = {
          "3.11, 4/C18", "TLA+ codec/helper laws + TLC trace validation of exhaustive and sampled helper calls"),
 }
 EXTRA = {
- "C01": " Also: frames within frames, and every frame parsed right after hostile histories in the same interpreter; digest-colliding frame pairs (crc32 / adler32) parsed back to back; a pre-emption sweep over every source line of parse / serialize / repr against a second thread; beyond the property the text of repr(msg) and the mode gates of the entry points are compared with the specification (notes only).",
- "C02": " Also: hostile histories, variant length collisions (counts computed from the TLC layouts), checksum validation on/off, a caller that changed an earlier result's array attributes in place; beyond the property, str(msg) is compared with spec/UbxStr.tla (notes only).",
- "C03": " Also: the same round trips right after hostile histories (refusals / failing parses inside groups) and with shuffled keyword order.",
- "C04": " Also: every class/ID of the message-ID table payload-less in sequence by every addressing, messages obtained by lenient parses of damaged frames, payloads around 64 KiB, payload= as bytes / bytearray / memoryview, text attributes given as non-UTF-8 bytes.",
+ "C01": " Also: frames within frames, and every frame parsed right after hostile histories in the same interpreter; digest-colliding frame pairs (crc32 / adler32) parsed back to back; a pre-emption sweep over every source line of parse / serialize / repr against a second thread; argument forms rotate (positional options, IntEnum modes, bytes subclass / bytearray frames) and three observations in eight look at a pickle / deepcopy / copy twin; beyond the property the text of repr(msg) and the mode gates of the entry points are compared with the specification (notes only).",
+ "C02": " Also: hostile histories, variant length collisions (counts computed from the TLC layouts), checksum validation on/off, a caller that changed an earlier result's array attributes in place, the same class / ID tried in the other modes first, static / constructor / stream parse routes, twins; beyond the property, str(msg) is compared with spec/UbxStr.tla (notes only).",
+ "C03": " Also: the same round trips right after hostile histories (refusals / failing parses inside groups) and with shuffled keyword order; addressing by bytes, integers and every alias name; sibling-mode histories; a sample re-run under -O / -OO with another hash seed and time zone.",
+ "C04": " Also: every class/ID of the message-ID table payload-less in sequence by every addressing, messages obtained by lenient parses of damaged frames, payloads around 64 KiB, payload= as bytes / bytearray / memoryview, text attributes given as non-UTF-8 bytes, twins of the built message, case-insensitive str-subclass names, message types (re)registered at run time in child interpreters.",
  "C05": " The judgements rotate over both bitfield settings, all msgmodes and a preceding lenient parse of the same bytes.",
- "C06": " Stream kinds: minimal recording stream, io.BytesIO, non-seekable io.BufferedReader, scripted socket; growing streams; long runs; frames of every definition with over/under-long payloads; every synthesised boundary frame toured deterministically.",
- "C07": " Stream kinds as for C06 incl. sockets and a polling caller after end-of-stream; growing streams paused anywhere; long runs; rejected frames nested in rejected frames; a second reader over an unrelated stream used in between by the same thread; warnings promoted to errors in every second run.",
+ "C06": " Stream kinds: minimal recording stream, io.BytesIO, non-seekable io.BufferedReader, scripted socket; growing streams; long runs; frames of every definition with over/under-long payloads; every synthesised boundary frame toured deterministically; relations between consecutive frames (repeats, same-length twins, ascending / descending lengths); a resume run (errors raised, caught, same iterator).",
+ "C07": " Stream kinds as for C06 incl. sockets and a polling caller after end-of-stream; growing streams paused anywhere; long runs; rejected frames nested in rejected frames; a second reader over an unrelated stream used in between by the same thread; warnings promoted to errors in every second run; one byte per recv(); more than a MiB through one socket reader; resume runs judged once they end.",
  "C08": " Reader runs include socket and non-seekable streams, streams ending inside frames, long runs and bursty delivery.",
- "C09": " Runs rotate over the protocol masks, handler presence and all stream kinds (incl. sockets and non-seekable streams); frames within frames; runs of more than a thousand filtered-out frames.",
- "C10": " Thorough also discharges Conservation as an inductive invariant with Apalache (spec/MC_SocketInd.tla); SocketWrapper.write is specified and checked as a note; reader runs rotate protfilter / parsing / validate / labelmsm; TLS-like sockets (own record-bounded read()), NTRIP / HTTP status lines ahead of the data.",
- "C11": " Also long runs of filtered-out frames, socket / non-seekable streams; a filtered run that dies is a violation.",
- "C12": " Also handler OBJECTS with a false truth value, bursty and growing streams, long runs of rejections, socket streams; beyond the property the logging channel (one ERROR record per rejected frame under ERR_LOG without handler, none otherwise) is compared with the specification (notes only).",
- "C13": " Also schedules in which the interleaving is the first use of the library in the interpreter, operation families sharing lazily initialised state, SETPOLL operations, definition-hidden attribute names, default logging configuration; assignments of the current / an equal value.",
- "C14": " Also every key with the extreme values of its type in the parse direction, repeated keys in helper lists, near-miss undocumented keys.",
- "C15": " Also: text too long for any frame, the raw-bitfield view with harness-decoded keywords, and the accepted value must be carried by the serialised frame; an owner that changed the array attributes of an earlier build in place.",
- "C16": " Also sibling modes back to back in one interpreter, hostile histories, and the nominal instance addressed by bytes, integers and names.",
- "C17": " The comparison is repeated with parsebitfield off and with VALNONE, and through a SETPOLL stream reader behind stray frames of the same class/ID, and through a stream reader opened with the true mode.",
- "C18": " Also val2sphp on sub-unit values, framing-like checksum contents, a hostile caller on nomval, X / A values of the wrong length, names nested three to five levels deep, a sample of every kind re-run under python -O and -OO; beyond the property the remaining helpers (hextable, escapeall, val2twoscomp, process_monver ...) are judged as notes.",
+ "C09": " Runs rotate over the protocol masks, handler presence and all stream kinds (incl. sockets and non-seekable streams); frames within frames; runs of more than a thousand filtered-out frames; more than a MiB over a socket in 4096-byte buffers.",
+ "C10": " Thorough also discharges Conservation as an inductive invariant with Apalache (spec/MC_SocketInd.tla); SocketWrapper.write is specified and checked as a note; reader runs rotate protfilter / parsing / validate / labelmsm; TLS-like sockets (own record-bounded read()), NTRIP / HTTP status lines ahead of the data, datagram sockets, timed sockets (pieces in time, together longer than the timeout), one byte per recv() inside long lines.",
+ "C11": " Also long runs of filtered-out frames, socket / non-seekable streams; a filtered run that dies is a violation; more than a MiB of filtered-out frames in one run; reader options given positionally.",
+ "C12": " Also handler OBJECTS with a false truth value, bursty and growing streams, long runs of rejections, socket streams, logger-like callable handler objects, positional options; beyond the property the logging channel (one ERROR record per rejected frame under ERR_LOG without handler, none otherwise) is compared with the specification (notes only).",
+ "C13": " Also schedules in which the interleaving is the first use of the library in the interpreter, operation families sharing lazily initialised state, SETPOLL operations, definition-hidden attribute names, default logging configuration; assignments of the current / an equal value; probes on pickle / deepcopy / copy twins; operations with positional options.",
+ "C14": " Also every key with the extreme values of its type in the parse direction, repeated keys in helper lists, near-miss undocumented keys, keys with related names (X and X_HP ...) in one message in both orders.",
+ "C15": " Also: text too long for any frame, the raw-bitfield view with harness-decoded keywords, and the accepted value must be carried by the serialised frame; an owner that changed the array attributes of an earlier build in place; keywords that name no attribute of the message in the view; nested groups with two repeats; a sample under -O / -OO.",
+ "C16": " Also sibling modes back to back in one interpreter, hostile histories, and the nominal instance addressed by bytes, integers, names and case-insensitive str-subclass names; the nominal instances again under python -bb and -O -bb.",
+ "C17": " The comparison is repeated with parsebitfield off and with VALNONE, and through a SETPOLL stream reader behind stray frames of the same class/ID, and through a stream reader opened with the true mode; byte strings with the same header but another real size handled first.",
+ "C18": " Also val2sphp on sub-unit values, framing-like checksum contents, a hostile caller on nomval, X / A values of the wrong length, names nested three to five levels deep, a sample of every kind re-run under python -O and -OO, protocol() with arbitrary tails, an array refused half-way before a valid one; beyond the property the remaining helpers (hextable, escapeall, val2twoscomp, process_monver ...) are judged as notes.",
 }
 checks = []
 for p in props:
